@@ -259,8 +259,7 @@ Definition rs_RES_BODY_DETERMINE (c : connp) : st * connp :=
     rs_response_headers (rs_set_state RES_FINALIZE c)
   else
     let c := if is_connect then
-               if sn =? 407 then rs_unblock_request c_HTP_STREAM_DATA c
-               else (rs_unblock_request c_HTP_STREAM_DATA c) <| c_out_data_other_at_tx_end := true |>
+               (rs_unblock_request c_HTP_STREAM_DATA c) <| c_out_data_other_at_tx_end := true |>      (* 407 included *)
              else c in
     let cl := rs_hdr_get_c (t_response_headers t) rs_str_content_length in
     let te := rs_hdr_get_c (t_response_headers t) rs_str_transfer_encoding in
